@@ -25,7 +25,8 @@
 (*   ps  poison: the name also contains "{{ nosuch }}" (fails at stage 4)   *)
 (*   x   "none" | "hook" | "cons" | "chan"  traits/constraint/channel extra  *)
 (*   sub sub-workflow id of an include                                     *)
-(*   for <<>> or <<[t |-> "list"|"var"|"be", s, b, e, x, var]>>: the node   *)
+(*   for <<>> or <<[t |-> "list"|"var"|"dep"|"be", s, b, e, bv, ev, x, var]>>:*)
+(*       (bv / ev: variables giving begin / end; dep: see CardsVar) the node *)
 (*       is the template role of an iterator                               *)
 (*                                                                         *)
 (* The variable environment follows configuration/template/fields.go       *)
@@ -52,13 +53,25 @@ EXTENDS Integers, Sequences, FiniteSets, TLC
 ProbeKeys == <<"flag", "it", "jt">>   \* variables reported in the `st` field of result nodes
 
 LAB == "[\"a\",\"b\"]"
+LABC == "[\"a\",\"b\",\"c\"]"
 LB  == "[\"b\"]"
 LE  == "[]"
-ListTexts == {LAB, LB, LE}
+LP  == "[\"p\"]"
+LPQ == "[\"p\",\"q\"]"
+ListTexts == {LAB, LABC, LB, LE, LP, LPQ}
 ListOf(s) == CASE s = LAB -> <<"a", "b">>
+               [] s = LABC -> <<"a", "b", "c">>
                [] s = LB -> <<"b">>
                [] s = LE -> <<>>
+               [] s = LP -> <<"p">>
+               [] s = LPQ -> <<"p", "q">>
                [] OTHER -> <<>>
+\* numbers as the template system sees them (strings); anything else makes strconv.Atoi fail
+NumTexts == {"0", "1", "2", "3"}
+NumOf(s) == CASE s = "0" -> 0 [] s = "1" -> 1 [] s = "2" -> 2 [] s = "3" -> 3 [] OTHER -> 0
+\* a range that depends on a variable x (typically the iteration variable of an ENCLOSING iterator):
+\* the list held by the variable named cards_<value of x>   (range: "{{ $env['cards_' + x] }}")
+CardsVar(v) == "cards_" \o v
 
 (* Sub-workflow catalogue (include targets); the driver renders the same.   *)
 Nd(par, k, nm, np, en, vs, ds, ps, x, sub, for) ==
@@ -84,7 +97,7 @@ Subs ==
       \* names parametrised by the includer's iteration variable, nested iterator inside
       [] id = "s5" -> <<Nd(0, "agg", "s5", <<>>, ENT, <<<<"flag", "ref", "it">>>>, <<>>, FALSE, "none", "", <<>>),
                         Nd(1, "task", "sq", <<"it", "jt">>, ENT, <<>>, <<>>, FALSE, "cons", "",
-                           <<[t |-> "be", s |-> "", b |-> 1, e |-> 2, x |-> "", var |-> "jt"]>>)>>
+                           <<[t |-> "be", s |-> "", b |-> 1, e |-> 2, bv |-> "", ev |-> "", x |-> "", var |-> "jt"]>>)>>
       [] OTHER -> <<>>]
 
 (* ------------------------------ environments ---------------------------- *)
@@ -131,15 +144,26 @@ AllDev == [iter |-> TRUE, enerr |-> TRUE]
 ErrR == [err |-> TRUE, out |-> <<>>, cnt |-> 0]
 OkR(s) == [err |-> FALSE, out |-> s, cnt |-> Len(s)]
 
+(* iteratorrange.go GetRange: the range / begin / end strings are template-processed against the    *)
+(* stack of the iterator's parent, i.e. per instance of an enclosing iterator's template role: a  *)
+(* nested iterator whose range depends on the outer iteration variable has a different range in   *)
+(* every outer child.                                                                            *)
+BoundOk(v, vstack) == v = "" \/ (Has(vstack, v) /\ vstack[v] \in NumTexts)
+BeginOf(f, vstack) == IF f.bv = "" THEN f.b ELSE NumOf(vstack[f.bv])
+EndOf(f, vstack) == IF f.ev = "" THEN f.e ELSE NumOf(vstack[f.ev])
 RangeOk(f, vstack) ==
   CASE f.t = "list" -> f.s \in ListTexts
     [] f.t = "var" -> Has(vstack, f.x) /\ vstack[f.x] \in ListTexts
-    [] f.t = "be" -> TRUE
+    [] f.t = "dep" -> /\ Has(vstack, f.x) /\ Has(vstack, CardsVar(vstack[f.x]))
+                      /\ vstack[CardsVar(vstack[f.x])] \in ListTexts
+    [] f.t = "be" -> BoundOk(f.bv, vstack) /\ BoundOk(f.ev, vstack)
     [] OTHER -> FALSE
 RangeOf(f, vstack) ==
   CASE f.t = "list" -> ListOf(f.s)
     [] f.t = "var" -> ListOf(vstack[f.x])
-    [] f.t = "be" -> [j \in 1..(f.e - f.b + 1) |-> ToString(f.b + j - 1)]
+    [] f.t = "dep" -> ListOf(vstack[CardsVar(vstack[f.x])])
+    [] f.t = "be" -> LET b == BeginOf(f, vstack) e == EndOf(f, vstack)
+                     IN [j \in 1..(e - b + 1) |-> ToString(b + j - 1)]
     [] OTHER -> <<>>
 
 RECURSIVE ProcOne(_, _, _, _, _, _, _, _), ProcVals(_, _, _, _, _, _, _), ProcKids(_, _, _, _, _, _)
